@@ -6,6 +6,8 @@
 pub trait Read {
     /// bytes not yet consumed
     spec fn rd_stream(&self) -> Seq<u8>;
+    /// the source never fails while bytes remain (true of an in-memory `&[u8]`, not of a file)
+    spec fn rd_reliable(&self) -> bool;
 
     fn read(&mut self, buf: &mut [u8]) -> (r: Result<usize, std::io::Error>)
         ensures
@@ -23,19 +25,36 @@ pub trait Read {
                 && final(buf)@ == old(self).rd_stream().subrange(0, old(buf)@.len() as int)
                 && final(self).rd_stream() == old(self).rd_stream().subrange(old(buf)@.len() as int, old(self).rd_stream().len() as int),
             old(buf)@.len() > old(self).rd_stream().len() ==> r is Err,
+            old(self).rd_reliable() && old(buf)@.len() <= old(self).rd_stream().len() ==> r is Ok,
+            final(self).rd_reliable() == old(self).rd_reliable(),
     ;
+}
+
+// ASSUMED (A-std): `impl Read for &[u8]` reads from the front of the slice and advances it.
+impl<'a> Read for &'a [u8] {
+    open spec fn rd_stream(&self) -> Seq<u8> { (*self)@ }
+    open spec fn rd_reliable(&self) -> bool { true }
+    #[verifier::external_body]
+    fn read(&mut self, buf: &mut [u8]) -> (r: Result<usize, std::io::Error>) { unimplemented!() }
+    #[verifier::external_body]
+    fn read_exact(&mut self, buf: &mut [u8]) -> (r: Result<(), std::io::Error>) { unimplemented!() }
 }
 
 pub trait VarIntReader {
     spec fn vr_stream(&self) -> Seq<u8>;
+    spec fn vr_reliable(&self) -> bool;
     fn read_varint<VI: VarInt>(&mut self) -> (r: Result<VI, std::io::Error>)
         ensures
             r matches Ok(v) ==> (var_dec(old(self).vr_stream()) matches Some(p) && p.0 == v.vi_to_u64()
                 && final(self).vr_stream() == old(self).vr_stream().subrange(p.1, old(self).vr_stream().len() as int)),
+            // (a reliable source fails only on an undecodable or out-of-range varint)
+            old(self).vr_reliable() && r is Err ==> (var_dec(old(self).vr_stream()) is None || !VI::vi_fits(var_dec(old(self).vr_stream()).unwrap().0)),
+            final(self).vr_reliable() == old(self).vr_reliable(),
     ;
 }
 impl<R: Read> VarIntReader for R {
     open spec fn vr_stream(&self) -> Seq<u8> { self.rd_stream() }
+    open spec fn vr_reliable(&self) -> bool { self.rd_reliable() }
     #[verifier::external_body]
     fn read_varint<VI: VarInt>(&mut self) -> (r: Result<VI, std::io::Error>) { unimplemented!() }
 }
